@@ -1,27 +1,28 @@
-\* the model-checking configuration of the quick tier for the `always` log (vf/families/logrotate.py generates the
-\* others; RetryRefused / StopCycles are set from a probe of the implementation, HSize / RSize from the header text)
+\* the two-session model-checking configuration of the quick tier (vf/families/logrotate.py generates the others;
+\* RetryRefused / StopCycles are set from a probe of the implementation, HSize / RSize from the header text)
 SPECIFICATION RSpec
 CONSTANTS
   RuleSets = {{"always"}}
   Sels = {"one"}
   Periods = {1}
-  MaxTime = 4
+  MaxTime = 3
   MaxEnv = 1
   MaxQ = 2
   MaxPush = 9
-  Restart = TRUE
+  Restart = FALSE
   Serial = TRUE
   History = TRUE
-  Keeps = {0, 1, 2}
-  Cycles = {0, 1, 2}
-  Sizes = {0, 39, 5000}
-  Flushes = {2, 4}
+  Keeps = {0, 2}
+  Cycles = {0, 1}
+  Sizes = {0, 39}
+  Flushes = {2}
   Reuses = {FALSE, TRUE}
   HSize = 27
   RSize = 6
   RetryRefused = FALSE
   StopCycles = "reuse"
   Crashes = "any"
+  Sessions = 2
 INVARIANT TypeOK
 INVARIANT RTypeOK
 INVARIANT Contiguous
